@@ -65,8 +65,12 @@ theorem valSplit_encVal (rc : Nat) (v : AVal) (b rest : Bytes) (h : encVal rc v 
       exact valSplit_fixed 7 8 _ rest (by simp) (by simp)
     split at h
     · split at h <;> first | exact key _ h | simp at h
-    · split at h <;> first | exact key _ h | simp at h
-    · split at h <;> first | exact key _ h | simp at h
+    · split at h
+      · split at h <;> first | exact key _ h | simp at h
+      · simp at h
+    · split at h
+      · split at h <;> first | exact key _ h | simp at h
+      · simp at h
     · exact key _ h
     · simp at h
   · -- FSINGL
